@@ -2145,6 +2145,83 @@ fn run_wire(args: &Args) -> Report {
                 }
             }
         }
+        // ---- the same after typing: ASCII typed in front of a non-ASCII character on a line
+        // (the document is reached through incremental edits, not opened afresh); the token
+        // stream must decode to the analysis of the NEW text
+        if ok {
+            let mut cur = doc.clone();
+            let mut version = 1;
+            let mut edits = 0;
+            for _ in 0..cr.range(1, 3) {
+                // a line with a multi-byte character; an insertion point left of it
+                let lines = cur.lines();
+                let cands: Vec<(usize, usize)> = lines.iter().filter(|(a, b)| !cur.text[*a..*b].is_ascii()).map(|(a, b)| (*a, cur.text[*a..*b].char_indices().find(|(_, c)| !c.is_ascii()).map(|(i, _)| a + i).unwrap_or(*b))).collect();
+                if cands.is_empty() {
+                    break;
+                }
+                let (ls, first_non_ascii) = cands[cr.below(cands.len())];
+                let at = ls + cr.below(first_non_ascii - ls + 1);
+                let typed = *cr.pick(&["bcde", "x", " wire_probe ", "q1(", "12345678"]);
+                let p = cur.position_of_enc(at, enc);
+                version += 1;
+                s.notify("textDocument/didChange", json!({"textDocument":{"uri":uri,"version":version},"contentChanges":[{"range":{"start":{"line":p.line,"character":p.col},"end":{"line":p.line,"character":p.col}},"text":typed}]}));
+                let mut t = cur.text.clone();
+                t.insert_str(at, typed);
+                cur = Doc::new(t);
+                edits += 1;
+            }
+            if edits > 0 {
+                let l2 = vh::ws::load_single(&[("/ws/pkg/src/w.gleam".to_string(), cur.text.clone()), ("/ws/pkg/gleam.toml".to_string(), "name = \"proj\"\n".to_string())]);
+                let f2 = l2.file_by_path("/ws/pkg/src/w.gleam").unwrap();
+                if let Ok(hl2) = l2.host.snapshot().syntax_highlight(f2, None) {
+                    let want2: BTreeSet<(usize, usize, String)> = hl2
+                        .iter()
+                        .map(|h| {
+                            (u32::from(h.range.start()) as usize, u32::from(h.range.end()) as usize, match h.tag {
+                                ide::HlTag::Function => "function",
+                                ide::HlTag::Module => "namespace",
+                                ide::HlTag::Constructor => "type",
+                            }.to_string())
+                        })
+                        .collect();
+                    let id = s.request("textDocument/semanticTokens/full", json!({"textDocument":{"uri":uri}}));
+                    if let Some(resp) = s.wait_response(id, Duration::from_secs(30)) {
+                        let data: Vec<u32> = resp["result"]["data"].as_array().map(|a| a.iter().filter_map(|v| v.as_u64().map(|x| x as u32)).collect()).unwrap_or_default();
+                        let mut got2: BTreeSet<(usize, usize, String)> = BTreeSet::new();
+                        let (mut line, mut start) = (0u32, 0u32);
+                        let mut broken = false;
+                        for c in data.chunks_exact(5) {
+                            line += c[0];
+                            start = if c[0] == 0 { start + c[1] } else { c[1] };
+                            match (cur.offset_of_enc(Pos { line, col: start }, enc), cur.offset_of_enc(Pos { line, col: start + c[2] }, enc), legend.get(c[3] as usize)) {
+                                (Ok(a), Ok(b), Some(ty)) => {
+                                    got2.insert((a, b, ty.clone()));
+                                }
+                                _ => {
+                                    broken = true;
+                                    break;
+                                }
+                            }
+                        }
+                        rep.count("wire_token_streams_after_typing", 1);
+                        if broken || got2 != want2 {
+                            let miss: Vec<_> = want2.difference(&got2).take(3).collect();
+                            let extra: Vec<_> = got2.difference(&want2).take(3).collect();
+                            let mut rp = replay.clone();
+                            rp["text_after_typing"] = json!(truncate_str(&cur.text, 4000));
+                            rep.violate(
+                                "wire:decoded-tokens-differ-after-typing",
+                                format!("client {}, after {edits} insertion(s) left of a non-ASCII character: expected but not decoded {miss:?}; decoded but not expected {extra:?}{}", profile.descr, if broken { " (a token does not decode at all)" } else { "" }),
+                                rp,
+                            );
+                            ok = false;
+                        }
+                    } else {
+                        rep.inconclusive += 1;
+                    }
+                }
+            }
+        }
         s.shutdown();
         if ok {
             rep.nontrivial(fnv(format!("{case_seed}:{}", profile.descr).as_bytes()));
